@@ -538,7 +538,9 @@ func c19PanicSite(stack string) string {
 func TestVerif_C19(t *testing.T) {
 	run := vfNewRun(t, "C19", "exploration")
 	run.SetRule("whole requests assembled from per-field hostile pools (method, path, host, cookie [attacker-forgeable AND validly signed with hostile payloads at the cipher/lz4/msgpack/ticket layers], Authorization, state, code, rd, error, forwarding and client-IP headers, Accept, RemoteAddr, form body) in a sweep of configurations; " +
-		"phase 1: every pool value once in an otherwise benign request; phase 2: seeded random combinations of 2-6 hostile fields; phase 3 (redis): corrupted stored values. cell = (configuration, field mutated, response class); every served request is non-trivial")
+		"phase 1: every pool value once in an otherwise benign request; phase 2: seeded random combinations of 2-6 hostile fields; phase 3 (redis): corrupted stored values; " +
+		"phase 4: sessions of unusual identities (e-mail without '@', empty parts, htpasswd/basic/bearer users without e-mail) x authorization query parameters; phase 5: clients giving up before/while a slow provider is called (callback, refresh, re-validation, backend logout, bearer); " +
+		"phase 6: configuration space — every value of per-option pools once plus seeded combinations; each configuration that passes validation serves a smoke set incl. a complete login. cell = (configuration, field mutated, response class); every served request is non-trivial")
 	run.Assume("requests that net/http's server rejects before calling the handler are not counted", "http.ErrAbortHandler is not a crash (stdlib idiom)")
 	w := vfNewWorld(t)
 	defer w.Close()
@@ -643,6 +645,13 @@ func TestVerif_C19(t *testing.T) {
 			c19RedisCorruption(run, w, c, rng)
 		}
 	})
+	t4 := time.Now()
+	c19OddIdentities(run, w, idp2, htp)
+	t5 := time.Now()
+	c19ClientGivesUp(run, t, htp)
+	t6 := time.Now()
+	c19ConfigSpace(run, w, htp)
+	run.Extra("phase_seconds", map[string]float64{"requests_grammar": t4.Sub(run.start).Seconds(), "odd_identities": t5.Sub(t4).Seconds(), "client_gives_up": t6.Sub(t5).Seconds(), "configuration_space": time.Since(t6).Seconds()})
 	run.Extra("configurations", len(cfgs))
 	run.RaceCheck("")
 	run.Finish(20000, 150)
